@@ -303,6 +303,14 @@ func init() {
 			k(st, e.havocResults(st, fn.Signature, "atomic"))
 		}
 	}
+	// hashing: the hasher is an opaque writer; Sum returns len(b) + 32 bytes that are an uninterpreted function of what was written
+	libSpecs["crypto/sha256.New"] = nonNilIface("sha256")
+	libIface["hash.Hash.Sum"] = func(e *Engine, st *State, c *ssa.CallCommon, recv Val, args []Val, pos token.Pos, k Kont) {
+		tb := e.tb
+		in := e.materialiseIfSlice(st, args[0], c.Signature().Params().At(0).Type())
+		ln := tb.Add(in.slLen(), tb.Int(32))
+		k(st, e.allocSlice(st, types.Typ[types.Uint8], ln, ln))
+	}
 	libSpecs["time.Unix"] = pureUF("time_Unix")
 	libSpecs["(time.Time).UnixNano"] = pureUF("time_UnixNano")
 	libSpecs["(time.Time).Unix"] = pureUF("time_UnixS")
